@@ -48,6 +48,7 @@ namespace sim
             case 8: run_with< 8 >( in, out ); break;
             case 9: run_with< 9 >( in, out ); break;
             case 10: run_with< 10 >( in, out ); break;
+            case 11: run_with< 11 >( in, out ); break;
             default: run_with< 7 >( in, out ); break;
          }
       }
